@@ -362,6 +362,7 @@ func runGarbage(run *mc.Run, prop string) int {
 			forms(fs, func(x Exp) { emit(item{x: x, pid: "4711"}) })
 		}
 	}, func(r *rig, it item) {
+		r.noMetrics = prop == "C11"
 		o := r.run(true, it.pid, it.x.Line, "")
 		kw := hasKeyword(it.x.Line)
 		if kw {
